@@ -144,7 +144,7 @@ func c11bigBatch(c *mon.Ctx) {
 	for i, p := range base.P {
 		want[i] = ref.MapToScalarField(p)
 	}
-	rounds := c.Pick(12, 60)
+	rounds := c.Pick(12, 240)
 	for r := 0; r < rounds; r++ {
 		id := fmt.Sprintf("bigbatch/%d", r)
 		c.Case(id, func() {
@@ -195,7 +195,7 @@ func runC11(c *mon.Ctx) {
 	}
 	env := GetEnv()
 	base := NewPool(c.Rand("pool"), 64)
-	nh := c.Pick(300, 5000)
+	nh := c.Pick(300, 20000)
 	for h := 0; h < nh; h++ {
 		if !c.Mine(h) {
 			continue
